@@ -43,3 +43,12 @@ package luastrings
 //@   ensures len(arg0) == 0 ==> result1 == 0
 //@   ensures len(arg0) > 0 ==> 1 <= result1 && result1 <= len(arg0) && result1 <= 6
 //@   ensures result0 >= 0
+
+// The encoder writes between 0 and 6 bytes at the start of a buffer that has
+// room for 6 (UTFMax) and nothing else.
+//@ func UTF8EncodeInt32
+//@   prop C04
+//@   arith bv
+//@   requires len(p) >= 6
+//@   modifies all(p)
+//@   ensures 0 <= result0 && result0 <= 6 && (i >= 0 ==> result0 >= 1)
